@@ -19,6 +19,7 @@ RULE = ("random single-variable queries (depth<=4, the whole C01 condition vocab
         "filter); histories of 2-5 rounds, each asking for a random number k of results (0..all+1) and then closing or "
         "exhausting the iterator; caching on and off. Non-trivial: some round stops before the end of the domain while "
         "at least one qualifying element is still ahead. distinct by structural hash.")
+RULE += " Size cases (every tier): one-shot iterators of 60-300 elements, results asked for deep into them over several partial and full evaluations."
 LEVEL_TEXT = ("Safety property over a recorded pull log (no unbounded 'eventually'): exact number of pulls at every delivered "
               "result, zero pulls before the first request, no element pulled twice across a history of evaluations.")
 LEVEL_NOTE = "Trusted: the logging iterator and the oracle (which elements qualify). Held on the histories produced."
